@@ -231,12 +231,15 @@ struct Var
     int trail;
     uint8_t ver;
     bool typed;
+    uint8_t mt = 1;   // frame message type (typed variants are data messages)
 };
 // variants 8 and 9 reassemble to 65535 / 65519..65520 bytes (the largest messages the 16-bit length field admits)
+// every frame message type meets a counter boundary: control (2, even) and an unknown type (7) the 65535 -> 0 wrap, status (3) and vendor
+// (0xFF) the sign boundary, data all of them
 static const Var kVar[10] = {
-    {{5, 5, 5}, 1, 0, 1, false},     {{1, 0, 5}, 65534, 3, 1, false}, {{0, 5, 1}, 65535, 20, 2, false}, {{6, 1, 0}, 0, 0, 1, true},
-    {{5, 5, 5}, 65535, 3, 1, true},  {{0, 0, 0}, 32766, 0, 2, false}, {{1, 1, 1}, 32767, 300, 1, false}, {{6, 0, 1}, 254, 0, 2, true},
-    {{40000, 25535, 0}, 65534, 0, 1, false}, {{65519, 0, 1}, 1, 3, 1, true},
+    {{5, 5, 5}, 1, 0, 1, false, 1},     {{1, 0, 5}, 65534, 3, 1, false, 2}, {{0, 5, 1}, 65535, 20, 2, false, 7}, {{6, 1, 0}, 0, 0, 1, true, 1},
+    {{5, 5, 5}, 65535, 3, 1, true, 1},  {{0, 0, 0}, 32766, 0, 2, false, 3}, {{1, 1, 1}, 32767, 300, 1, false, 0xFF}, {{6, 0, 1}, 254, 0, 2, true, 1},
+    {{40000, 25535, 0}, 65534, 0, 1, false, 1}, {{65519, 0, 1}, 1, 3, 1, true, 1},
 };
 
 struct BuiltStream
@@ -256,7 +259,7 @@ static BuiltStream buildStream(int ep, int tmpl, int var)
     size_t i = 0, n = strlen(t);
     auto fh = [&](uint16_t s) {
         ref::FrameHdr h;
-        h.version = v.ver; h.device = kEp[ep].dev; h.stream = kEp[ep].str; h.msgType = ref::MT_DATA; h.seq = s;
+        h.version = v.ver; h.device = kEp[ep].dev; h.stream = kEp[ep].str; h.msgType = v.mt; h.seq = s;
         return h;
     };
     while (i < n)
@@ -272,7 +275,7 @@ static BuiltStream buildStream(int ep, int tmpl, int var)
                 ref::Msg m = ref::mkMsg(0xFE, body, 0x01, 0x7000 + ep * 0x100 + msgIdx * 0x10 + k, 0x11110000u + ep * 0x100 + msgIdx);
                 msgs.push_back(m);
                 ref::Delivered d;
-                d.device = kEp[ep].dev; d.stream = kEp[ep].str; d.version = v.ver; d.msgType = ref::MT_DATA; d.h = m.h; d.payload = body;
+                d.device = kEp[ep].dev; d.stream = kEp[ep].str; d.version = v.ver; d.msgType = v.mt; d.h = m.h; d.payload = body;
                 exp.push_back(d);
             }
             bs.frames.push_back(ref::buildFrame(fh(seq++), msgs));
@@ -331,7 +334,7 @@ static BuiltStream buildStream(int ep, int tmpl, int var)
             if (q + 1 == k)
             {
                 ref::Delivered d;
-                d.device = kEp[ep].dev; d.stream = kEp[ep].str; d.version = v.ver; d.msgType = ref::MT_DATA;
+                d.device = kEp[ep].dev; d.stream = kEp[ep].str; d.version = v.ver; d.msgType = v.mt;
                 d.h.ts = ts; d.h.idword = id; d.h.flags = (var & 1) ? 0x32 : 0x02; d.h.ptype = ptype; d.h.plen = (uint16_t) total;
                 d.payload = content;
                 d.reassembled = true;
@@ -573,9 +576,9 @@ static Bytes symbolFrame(int sym, const ref::ReassemblyModel& m, bool& isNull, i
         case 3:
         {
             fh.seq = 65535;   // the continuation wraps to 0
+            fh.msgType = ref::MT_CONTROL;   // ... on a message of an EVEN type (a carry out of the counter lands in the type's lowest bit)
             Bytes f = ref::buildFrame(fh, {seg(ref::SEG_FIRST, 4, 5)});
-            for (int i = 0; i < 5; ++i)
-                f.push_back((uint8_t) (0xE0 + i));
+            f.resize(f.size() + 300, 0x01);   // a trail that reads as a plausible message header at every offset (see buildStream)
             return f;
         }
         case 4: fh.seq = 32767; fh.version = 2; fh.msgType = ref::MT_STATUS; return ref::buildFrame(fh, {seg(ref::SEG_FIRST, 0, 6)});   // continuation crosses 0x7FFF -> 0x8000
@@ -589,8 +592,7 @@ static Bytes symbolFrame(int sym, const ref::ReassemblyModel& m, bool& isNull, i
         {
             fh.seq = next; fh.version = over; fh.msgType = otyp;
             Bytes f = ref::buildFrame(fh, {seg(ref::SEG_MID, 1, 13)});
-            for (int i = 0; i < 20; ++i)
-                f.push_back((uint8_t) (0xD0 + i));
+            f.resize(f.size() + 300, 0x01);
             return f;
         }
         case 12:
